@@ -47,6 +47,13 @@ class Unknown(Exception):
         self.node, self.why = node, why
 
 
+class Wrong(Exception):
+    """A definite inconsistency found while decoding a helper."""
+    def __init__(self, node, why):
+        Exception.__init__(self, why)
+        self.node, self.why = node, why
+
+
 def is_assert(n):
     return "assert" in (n.d.get("m") or []) or "assert" in (n.d.get("me") or [])
 
@@ -291,6 +298,19 @@ def helper_validity(h, dirs):
     else:
         bounded = set()      # no test at all: every move must stay inside by construction (torus: modulo)
         wraps = True
+    # the identifier of the cell moved to is the inverse of the decomposition y = from / width, x = from - y * width
+    idexpr = X.strip(r.children[1], casts=True) if r.k == "ConditionalOperator" else r
+    ok_id = False
+    if idexpr.k == "BinaryOperator" and idexpr.op == "+":
+        for a_, b_ in ((idexpr.children[0], idexpr.children[1]), (idexpr.children[1], idexpr.children[0])):
+            a_, b_ = X.strip(a_, casts=True), X.strip(b_, casts=True)
+            if b_.k == "DeclRefExpr" and b_.name == "x" and a_.k == "BinaryOperator" and a_.op == "*":
+                f1, f2 = X.strip(a_.children[0], casts=True), X.strip(a_.children[1], casts=True)
+                names = {(f1.name if f1.k in ("DeclRefExpr", "MemberExpr") else None), (f2.name if f2.k in ("DeclRefExpr", "MemberExpr") else None)}
+                if names == {"y", "width"}:
+                    ok_id = True
+    if not ok_id:
+        raise Wrong(idexpr, "a valid move returns `%s`, not y * width + x: the region returned is not the cell moved to (on a map that is not square it can lie outside the map)" % X.show(idexpr)[:60])
     valid = {}
     for d, stmts in bodies.items():
         if d in ("default", "DIRECTION_RANDOM") or d not in dirs:
@@ -330,6 +350,10 @@ def _torus_moves(stmts):
             return False
         va, vb = X.strip(a.children[0]), X.strip(b.children[0])
         ext = X.strip(b.children[1], casts=True)
+        if va.k == "DeclRefExpr" and vb.k == "DeclRefExpr" and va.name == vb.name and ext.k == "MemberExpr" and va.name in ("x", "y") \
+                and ext.name in ("width", "height") and (va.name, ext.name) not in (("x", "width"), ("y", "height")):
+            raise Wrong(b, "the %s coordinate is reduced modulo the map's %s: on a map that is not square the move leaves the map (or never reaches its last %s)"
+                        % (va.name, ext.name, "columns" if va.name == "x" else "rows"))
         if not (va.k == "DeclRefExpr" and vb.k == "DeclRefExpr" and va.name == vb.name and ext.k == "MemberExpr"
                 and (va.name, ext.name) in (("x", "width"), ("y", "height"))):
             return False
